@@ -34,6 +34,8 @@ FIRST_MISSED = {
     "C04-3": "own property silent (reported by C02/C03) -> C04 HSK-BIND 'failed tag aborts' for every DecryptAndHash of the reader",
     "C05-3": "no check reported it -> RETRY (a failed relay stream is replaced before the retry)",
     "C05-4": "no check reported it -> DUPLEX (read side and write side of the record layer share no state)",
+    "C08-4": "own property silent (reported by C05 DUPLEX; same change as C05-4, written independently) -> C08 shares DUPLEX",
+    "C09-4": "no check reported it -> WIN-4: the exact-ACK leg needs a non-empty test",
     "C06-3": "no check reported it -> RATELIMIT: once lastResend is refreshed the packets are transmitted",
 }
 
